@@ -5,7 +5,7 @@
 //
 // request line (stdin):
 //   run q=<queue size> min=<minThreads> max=<maxThreads> lazy=<0|1> tick=<ms per clock call> sp=<spurious budget>
-//       pol=<np|rand> seed=<n> bound=<step bound> flush=<0|1> split=<0|1> pre=<t,t,...|-> | <client 1 ops> | <client 2 ops> ...
+//       pol=<np|rand> seed=<n> bound=<step bound> flush=<0|1> split=<0|1> pre=<t,t,...|-> dev=<step:t,step:t,...|-> | <client 1 ops> | <client 2 ops> ...
 //   client ops:  s<f>:<a>:<b> start int future f with body(a,b)   S<f>:<a>:<b> start void future f
 //                j/J join   r result conversion (int futures)   a/A abort   q/Q query flags   d/D destroy + re-create
 //   (lower case = Future<int> f, upper case = Future<void> f).  `a` doubles as the unique id of the call.
@@ -199,6 +199,9 @@ static int runScenario(char* line)
     ++nclients;
     s = nb ? nb + 1 : 0;
   }
+  static int dsteps[100000], dthreads[100000]; int ndev = 0;
+  { const char* p = strstr(line, " dev="); if(p) { p += 5; while(*p && *p != ' ' && *p != '-') { dsteps[ndev] = (int)strtol(p, (char**)&p, 10); if(*p == ':') ++p; dthreads[ndev] = (int)strtol(p, (char**)&p, 10); ++ndev; if(*p == ',') ++p; } } }
+  sched_set_devs(dsteps, dthreads, ndev);
   int split = (int)kv(line, "split", 0);
   sched_reset((unsigned long long)seed, pol, pre, npre, maxsteps, sp, tick, split);
   printf("P %d\n", split);
